@@ -27,8 +27,8 @@ def generic(prop, quick_cfgs, thorough_cfgs, qruns=600, truns=6000, qscripts=300
             S.apalache_counters(c)
         batches = [("random", rnd(c, qruns if c.quick else truns)),
                    ("scripted", scripts(c, qscripts if c.quick else tscripts, **(sim_kw or {})))]
-        for name, fn in (extra or []):
-            batches.append((name, fn(c)))
+        for ex in (extra or []):
+            batches.append((ex[0], ex[1](c)) + tuple(ex[2:]))
         if not c.quick:
             batches.append(("random-big", rnd(c, truns // 6, maxj=30, maxn=8)))
         S.conformance(c, batches, hook_limit=150 if c.quick else 1500)
@@ -90,6 +90,9 @@ def c12(c):
 
 
 CAPACITY = ("capacity", lambda c: ["-mode", "capacity", "-seed", c.seed, "-runs", 150 if c.quick else 1500])
+# the default limit max(GOMAXPROCS, 4) under different GOMAXPROCS values (expected 4, 4, 8)
+CAPDEF = [("capacity-gomaxprocs%d" % g, (lambda c: ["-mode", "capacity", "-defaultn", "-seed", c.seed, "-runs", 12 if c.quick else 100]),
+           {"GOMAXPROCS": str(g)}) for g in (1, 2, 8)]
 PROMPT = ("prompt", lambda c: ["-mode", "prompt", "-seed", c.seed, "-runs", 120 if c.quick else 1200])
 WIDE = ("wide", lambda c: ["-mode", "wide", "-seed", c.seed, "-runs", 8 if c.quick else 60, "-deadline", "4s"])
 PILEUP = ("pileup", lambda c: ["-mode", "pileup", "-seed", c.seed, "-runs", 250 if c.quick else 2500])
@@ -97,7 +100,7 @@ PILEUP = ("pileup", lambda c: ["-mode", "pileup", "-seed", c.seed, "-runs", 250 
 REGISTRY = {
     "C01": generic("C01", ["q_dup"], ["q_dup", "t_ff4", "t_coe4"],
                    extra=[("fanin", lambda c: ["-mode", "fanin", "-seed", c.seed, "-runs", 6 if c.quick else 60, "-maxj", 600, "-maxn", 8])]),
-    "C03": generic("C03", ["q_exit"], ["q_exit", "t_n3", "t_ctx2"], extra=[CAPACITY]),
+    "C03": generic("C03", ["q_exit"], ["q_exit", "t_n3", "t_ctx2"], extra=[CAPACITY] + CAPDEF),
     "C05": generic("C05", ["q_exit", "q_can"], ["q_exit", "q_can", "t_all3", "t_ff4"], extra=[PILEUP, WIDE]),
     "C06": generic("C06", ["q_ff"], ["q_ff", "t_all3", "t_ff4"], extra=[PILEUP, WIDE]),
     "C07": generic("C07", ["q_ff", "q_ctx2"], ["q_ff", "t_ff4", "t_can4", "t_ctx2"]),
